@@ -420,4 +420,130 @@ example : (Node.run Ex.adm cfg Ex.wire Ex.ds : Node NB).dg.disk.head = some (emb
 example : (Node.run Ex.adm cfg Ex.wire Ex.ds : Node NB).dg.disk.verifyPrevs (embTx Ex.wire (Ex.mk 13 5 [11] 103)) = .err "bad-clock" ∧
     C06.verifyPrevs (run6 Ex.adm Ex.ds).txs (Ex.mk 13 5 [11] 103) = .err "clock" := by decide
 
+/-! ### XOR faithfulness stated about C08's digests; convergence end to end -/
+
+/-- the `(xor, clock)` C08 returns at or above the highest clock, for any valid admitted list -/
+theorem xorAt_top (env : C06.Env) (w : Wire) (l : List C06.Tx) (hc : C06.ChainOK env l) (hs : ∀ t ∈ l, Small t.ref)
+    (c : Nat) (hge : C06.maxClock l ≤ c) :
+    C08.xorAt (build cfg w l : C08.State NB) c = (embRef (C06.xorAll l), C06.maxClock l) := by
+  obtain ⟨hsinv, hrel⟩ := build_chain (n := NB) cfg_good w l hc hs
+  have hr : Reachable (build cfg w l : C08.State NB) := reachable_build w l
+  have hd := C08.Props.diagnostics_spec hr
+  have hroot : (build cfg w l : C08.State NB).mem.xorTree.rootData C08.xorOps = embRef (C06.xorAll l) := by
+    have := congrArg (·.1) hd
+    simp only [C08.diagnostics] at this
+    rw [this, hrel.txs]
+    exact specAll_xor_embList w l
+  have hlc : (build cfg w l : C08.State NB).mem.lcHigh = C06.maxClock l := by
+    rw [hsinv.lc, hsinv.g.lc, hrel.txs, maxClock_embList]
+  unfold C08.xorAt
+  have : ¬ c < C06.maxClock l := by omega
+  simp only [hroot, hlc, this, if_false]
+
+/-- **XOR faithfulness, instantiated with C08's digest over C06-admitted sets.** C07's liveness theorems assume `hxf`: within
+    the universe `U`, two valid DAGs with equal XOR hold the same transactions — stated about C07's abstract `xorOf` over
+    ALL `DagOK` lists. Here that hypothesis is derived from the same statement about what the implementation layers
+    compute: for valid C06 chains `l`, `l'` inside a universe `U6` of C06 transactions (SHA-256 refs), if the XOR that
+    C08's `XOR(c)` returns at the top clock on the digest state built from `l'` equals the one built from `l`, then
+    `l' ⊆ l`. (A collision assumption on SHA-256 values; neither model can discharge it — see `exXF` for an instance.) -/
+theorem xor_faithfulness_from_c08 (env : C06.Env) (w : Wire) (U6 : List C06.Tx) (hs : ∀ t ∈ U6, Small t.ref)
+    (hxf8 : ∀ l l' : List C06.Tx, C06.ChainOK env l → C06.ChainOK env l' → (∀ t ∈ l, t ∈ U6) → (∀ t ∈ l', t ∈ U6) →
+      (C08.xorAt (build cfg w l' : C08.State NB) (C06.maxClock l')).1 = (C08.xorAt (build cfg w l : C08.State NB) (C06.maxClock l)).1 →
+      ∀ t ∈ l', t ∈ l) :
+    ∀ d d' : List Proto.Tx, DagOK d → DagOK d' → (∀ t ∈ d, t ∈ U6.map (viewTx w env)) → (∀ t ∈ d', t ∈ U6.map (viewTx w env)) →
+      xorOf d' = xorOf d → ∀ t ∈ d', t ∈ d := by
+  intro d d' hd hd' hu hu' hx t ht
+  obtain ⟨l, rfl, hl⟩ := preimage_of_view w env U6 d hu
+  obtain ⟨l', rfl, hl'⟩ := preimage_of_view w env U6 d' hu'
+  have c := chainOK_of_dagOK_view w env l hd
+  have c' := chainOK_of_dagOK_view w env l' hd'
+  rw [xorOf_view, xorOf_view] at hx
+  have h8 := hxf8 l l' c c' hl hl'
+    (by rw [xorAt_top env w l' c' (fun t ht => hs t (hl' t ht)) _ (Nat.le_refl _),
+            xorAt_top env w l c (fun t ht => hs t (hl t ht)) _ (Nat.le_refl _), hx])
+  obtain ⟨u, hu, rfl⟩ := List.mem_map.mp ht
+  exact List.mem_map.mpr ⟨u, h8 u hu, rfl⟩
+
+
+
+/-- … and conversely: on a universe with unique SHA-256 refs the two formulations of XOR faithfulness are equivalent, so
+    nothing is lost by stating the hypothesis about C08's digests -/
+theorem xor_faithfulness_to_c08 (env : C06.Env) (w : Wire) (U6 : List C06.Tx) (hs : ∀ t ∈ U6, Small t.ref)
+    (hU6 : ∀ t ∈ U6, ∀ t' ∈ U6, t.ref = t'.ref → t = t')
+    (hxf : ∀ d d' : List Proto.Tx, DagOK d → DagOK d' → (∀ t ∈ d, t ∈ U6.map (viewTx w env)) →
+      (∀ t ∈ d', t ∈ U6.map (viewTx w env)) → xorOf d' = xorOf d → ∀ t ∈ d', t ∈ d) :
+    ∀ l l' : List C06.Tx, C06.ChainOK env l → C06.ChainOK env l' → (∀ t ∈ l, t ∈ U6) → (∀ t ∈ l', t ∈ U6) →
+      (C08.xorAt (build cfg w l' : C08.State NB) (C06.maxClock l')).1 = (C08.xorAt (build cfg w l : C08.State NB) (C06.maxClock l)).1 →
+      ∀ t ∈ l', t ∈ l := by
+  intro l l' c c' hl hl' hx u hu
+  have sl : ∀ t ∈ l, Small t.ref := fun t ht => hs t (hl t ht)
+  have sl' : ∀ t ∈ l', Small t.ref := fun t ht => hs t (hl' t ht)
+  rw [xorAt_top env w l' c' sl' _ (Nat.le_refl _), xorAt_top env w l c sl _ (Nat.le_refl _)] at hx
+  have hx' : C06.xorAll l' = C06.xorAll l := embRef_inj (small_xorAll l' sl') (small_xorAll l sl) hx
+  have := hxf (viewL w env l) (viewL w env l') (dagOK_view w env l c) (dagOK_view w env l' c')
+    (fun t ht => by obtain ⟨x, hx, rfl⟩ := List.mem_map.mp ht; exact List.mem_map.mpr ⟨x, hl x hx, rfl⟩)
+    (fun t ht => by obtain ⟨x, hx, rfl⟩ := List.mem_map.mp ht; exact List.mem_map.mpr ⟨x, hl' x hx, rfl⟩)
+    (by rw [xorOf_view, xorOf_view, hx'])
+    (viewTx w env u) (List.mem_map.mpr ⟨u, hu, rfl⟩)
+  obtain ⟨u2, hu2, he⟩ := List.mem_map.mp this
+  have : u2.ref = u.ref := congrArg (·.ref) he
+  rw [← hU6 u2 (hl u2 hu2) u (hl' u hu) this]
+  exact hu2
+
+/-- **End to end.** Two nodes whose DAGs are what C06 admitted along ANY two delivery histories inside a universe `U6`
+    of transactions (unique SHA-256 refs), and whose digests are therefore C08's folds (`admitted_stream_digests`), converge
+    under C07's fair round pairs to the union of their DAGs — with `DagOK` discharged by C06 and XOR faithfulness stated
+    about C08's `XOR(c)` on C06-admitted sets. Remaining hypotheses are C07's own: decode/sort contracts (`Hyp`), the
+    node bookkeeping invariants `NI` / `Linked`, the shared root, enough fuel and rounds. -/
+theorem converges_end_to_end {cfg7 : Proto.Cfg} {env7 : Proto.Env} (H : Hyp cfg7 env7)
+    (adm : Adm) (w : Wire) (dsA dsB : List Delivery) (U6 : List C06.Tx) (hs : ∀ t ∈ U6, Small t.ref)
+    (hU6 : ∀ t ∈ U6, ∀ t' ∈ U6, t.ref = t'.ref → t = t')
+    (hxf8 : ∀ l l' : List C06.Tx, C06.ChainOK adm.env l → C06.ChainOK adm.env l' → (∀ t ∈ l, t ∈ U6) → (∀ t ∈ l', t ∈ U6) →
+      (C08.xorAt (build cfg w l' : C08.State NB) (C06.maxClock l')).1 = (C08.xorAt (build cfg w l : C08.State NB) (C06.maxClock l)).1 →
+      ∀ t ∈ l', t ∈ l)
+    (pA pB : Peer) (fuel : Nat) (hfuel : pageOf cfg7 (lcOf (U6.map (viewTx w adm.env))) + 3 ≤ fuel) (a b : Proto.Node)
+    (hda : a.dag = view w adm.env (run6 adm dsA)) (hdb : b.dag = view w adm.env (run6 adm dsB))
+    (nia : NI a) (nib : NI b) (ua : ∀ t ∈ (run6 adm dsA).txs, t ∈ U6) (ub : ∀ t ∈ (run6 adm dsB).txs, t ∈ U6)
+    (ra : ∀ t ∈ U6, t.prevs = [] → t ∈ (run6 adm dsA).txs) (rb : ∀ t ∈ U6, t.prevs = [] → t ∈ (run6 adm dsB).txs)
+    (la : Linked a pB.key) (lb : Linked b pA.key)
+    (k : Nat) (hk : 2 * U6.length < a.dag.length + b.dag.length + k) :
+    (∀ t, t ∈ (roundPairs cfg7 env7 pA pB fuel k (a, b)).1.dag ↔ (t ∈ a.dag ∨ t ∈ b.dag)) ∧
+    (∀ t, t ∈ (roundPairs cfg7 env7 pA pB fuel k (a, b)).2.dag ↔ (t ∈ a.dag ∨ t ∈ b.dag)) ∧
+    DagOK (roundPairs cfg7 env7 pA pB fuel k (a, b)).1.dag ∧ DagOK (roundPairs cfg7 env7 pA pB fuel k (a, b)).2.dag := by
+  refine converges_for_admitted_dags H adm w dsA dsB (U6.map (viewTx w adm.env)) ?_
+    (xor_faithfulness_from_c08 adm.env w U6 hs hxf8) pA pB fuel hfuel a b hda hdb nia nib ?_ ?_ ?_ ?_ la lb k (by simpa using hk)
+  · intro t ht t' ht' he
+    obtain ⟨u, hu, rfl⟩ := List.mem_map.mp ht
+    obtain ⟨u', hu', rfl⟩ := List.mem_map.mp ht'
+    rw [hU6 u hu u' hu' he]
+  · intro t ht
+    rw [hda] at ht
+    obtain ⟨u, hu, rfl⟩ := List.mem_map.mp ht
+    exact List.mem_map.mpr ⟨u, ua u hu, rfl⟩
+  · intro t ht
+    rw [hdb] at ht
+    obtain ⟨u, hu, rfl⟩ := List.mem_map.mp ht
+    exact List.mem_map.mpr ⟨u, ub u hu, rfl⟩
+  · intro t ht hp
+    obtain ⟨u, hu, rfl⟩ := List.mem_map.mp ht
+    rw [hda]
+    exact List.mem_map.mpr ⟨u, ra u hu hp, rfl⟩
+  · intro t ht hp
+    obtain ⟨u, hu, rfl⟩ := List.mem_map.mp ht
+    rw [hdb]
+    exact List.mem_map.mpr ⟨u, rb u hu hp, rfl⟩
+
+/-- non-vacuity: C07's own example universe is the view of a C06 universe; its XOR faithfulness (`exXF`) gives the C08 form -/
+example : [c7x, c7root].map (viewTx Ex.wire Ex.env) = Nuts.C07.Ex.exU := by decide
+example : ∀ t, t ∈ (roundPairs Nuts.C07.Ex.exCfg Nuts.C07.Ex.idealEnv { key := 0 } { key := 1 } 4 2
+      (Nuts.C07.Ex.exA, Nuts.C07.Ex.exB)).1.dag ↔ (t ∈ Nuts.C07.Ex.exA.dag ∨ t ∈ Nuts.C07.Ex.exB.dag) :=
+  (converges_end_to_end
+    (Nuts.C07.Ex.fact_hyp 524288 30 Nuts.C07.Ex.idealEnv Nuts.C07.Ex.idealEnv_DC Nuts.C07.Ex.idealEnv_OrderOK)
+    Ex.adm Ex.wire [.tx c7root none] [.tx c7x none, .tx c7root none, .tx c7x none] [c7x, c7root] (by decide) (by decide)
+    (xor_faithfulness_to_c08 Ex.env Ex.wire [c7x, c7root] (by decide) (by decide)
+      (by rw [show [c7x, c7root].map (viewTx Ex.wire Ex.env) = Nuts.C07.Ex.exU from by decide]; exact Nuts.C07.Ex.exXF))
+    { key := 0 } { key := 1 } 4 (by decide) Nuts.C07.Ex.exA Nuts.C07.Ex.exB (by decide) (by decide)
+    Nuts.C07.Ex.exPairInv.nia Nuts.C07.Ex.exPairInv.nib (by decide) (by decide) (by decide) (by decide)
+    Nuts.C07.Ex.exPairInv.la Nuts.C07.Ex.exPairInv.lb 2 (by decide)).1
+
 end Nuts.Compose.Dag.Props
